@@ -379,6 +379,13 @@ func (p *e19Prover) le1(v ssa.Value, t e19Term, strict bool, facts []core.Fact, 
 				}
 			}
 		}
+	}
+	// 3c. a helper's result is bounded if every successful return of the helper is:
+	// the term is re-expressed in the callee — len of a field of the object passed
+	// (objTerm), or the int parameter that receives a value denoting the term
+	// (strlen := len(runes); helper(pos, strlen)). Failure returns (non-nil error /
+	// false) are skipped only where the caller is known to have seen success.
+	if t.minus == nil && d < 8 {
 		var call *ssa.Call
 		idx := 0
 		switch x := v.(type) {
@@ -391,31 +398,29 @@ func (p *e19Prover) le1(v ssa.Value, t e19Term, strict bool, facts []core.Fact, 
 		}
 		if call != nil {
 			if f := call.Common().StaticCallee(); f != nil && f.Blocks != nil && p.c.P.Name(f) != f.String() && len(call.Common().Args) == len(f.Params) {
-				oi := -1
-				for i, a := range call.Common().Args {
-					if core.SameVal(a, ot.obj) {
-						oi = i
+				var cts []e19Term
+				if ot, ok := t.objTerm(); ok {
+					for i, a := range call.Common().Args {
+						if core.SameVal(a, ot.obj) {
+							cts = append(cts, e19Term{obj: f.Params[i], fkey: ot.fkey})
+						}
 					}
 				}
-				if oi >= 0 {
-					ct := e19Term{obj: f.Params[oi], fkey: ot.fkey}
+				for i, a := range call.Common().Args {
+					if e19IsIntType(a.Type()) && p.matches(a, t) {
+						cts = append(cts, e19Term{val: f.Params[i]})
+					}
+				}
+				success := core.SuccessKnown(call, at)
+				for _, ct := range cts {
 					okAll, n := true, 0
 					for _, ret := range core.Returns(f) {
 						if idx >= len(ret.Results) {
 							okAll = false
 							break
 						}
-						// error returns carry no usable value
-						if ei := core.ErrorResultIndex(f); ei >= 0 && ei != idx {
-							isErr := false
-							for _, ev := range core.ReturnOperand(ret, ei) {
-								if ev != nil && core.ClassifyNil(ev, ret) == core.NonNil {
-									isErr = true
-								}
-							}
-							if isErr {
-								continue
-							}
+						if idx != len(ret.Results)-1 && core.FailureReturn(f, ret) && success {
+							continue
 						}
 						for _, rv := range core.ReturnOperand(ret, idx) {
 							n++
